@@ -1,4 +1,18 @@
-(* Proofs/SimI1.v — WIP *)
+(* Proofs/SimI1.v — the invariant RInv2 (ViewR2.v: lock counts XInv, entries in progress PInv, no fault,
+   shallow tree, well-formed previous cache) holds when the root function starts, ALSO when
+   Build.m_build has to "make" the directories of the cache file.  ViewR3.RInv2_root_entry has it only
+   when the directory of the cache file is a visible directory (vdir start (dirname cf) = true), which
+   excludes
+     - a rebuild whose cache file lies in a directory that the previous build made and that holds
+       only outputs and the cache file: that directory is DEAD in the view of the start world, so
+       _dirs_to_make lists it; it is on disk, every mkdir answers EEXIST and nothing changes
+       [RInv2_root_entry_rebuild] (any previous cache; needs only that the cache file is there);
+     - a first build whose cache file lies in directories that do not exist yet: they are made, but
+       BuildDirs is not told; with a previous cache that records no directory nothing is tracked and
+       XInv does not notice directories that appear [XInv_dirs_added], [RInv2_root_entry_nodirs].
+   Both are stated for an arbitrary result list ccd of _make_dirs, the form in which
+   CommitDirs3Main.accept_dirs_exact_wf asks for the invariant.  Used in SimI2.v.
+   New file; edits nothing. *)
 From Coq Require Import List String Ascii NArith ZArith Bool Arith Lia Sorted.
 From FB.Base Require Import PyVal Fs.
 From FB.Gen Require Import JsonUtilGen.
